@@ -172,6 +172,19 @@ func poolHoled2(cfg2 *geometry.IndexOptions) (as, bs []*shp) {
 			as = append(as, s)
 		}
 	}
+	// three holes, every order of three fixed cells and of a second triple
+	for _, tri := range [][3]cell{{{1, 1}, {3, 1}, {1, 3}}, {{1, 4}, {4, 1}, {3, 3}}} {
+		for _, perm := range [][3]int{{0, 1, 2}, {0, 2, 1}, {1, 0, 2}, {1, 2, 0}, {2, 0, 1}, {2, 1, 0}} {
+			var hs [][]exact.P
+			for _, k := range perm {
+				c := tri[k]
+				hs = append(hs, box(c.x, c.y, c.x+1, c.y+1))
+			}
+			s := mkShp(&exact.Shape{Kind: exact.KPoly, Ext: ext, Holes: hs}, cfg2)
+			s.tag = "three-holes"
+			as = append(as, s)
+		}
+	}
 	for x0 := int64(0); x0 <= 6; x0++ {
 		for x1 := x0 + 3; x1 <= 6; x1++ {
 			for y0 := int64(0); y0 <= 6; y0++ {
